@@ -819,6 +819,9 @@ class Gen:
                 an_ref = "77"  # a list definition that is not there
                 self.feat("num_dangling_abstract")
             num = self.E("w:num", {"w:numId": nid}, self.E("w:abstractNumId", {"w:val": an_ref}))
+            if self.p(0.05):
+                num = self.E("w:num", {"w:numId": nid})  # no w:abstractNumId: the list id stays undefined
+                self.feat("num_without_abstract")
             root.append(num)
         self.feat("numbering_part")
         return root
